@@ -585,8 +585,8 @@ func loadContractFile(file string, out map[string]*FuncContract) error {
 			}
 			cur.Updates = append(cur.Updates, UpdateClause{rest, te, ve})
 		case "modifies":
-			for _, m := range strings.Split(rest, ",") {
-				cur.Modifies = append(cur.Modifies, strings.TrimSpace(m))
+			for _, m := range splitTopLevel(rest) {
+				cur.Modifies = append(cur.Modifies, m)
 			}
 		case "requires", "ensures", "onpanic", "invariant", "decreases", "writes", "assert", "lemma", "alloc-bound":
 			site := ""
@@ -643,4 +643,53 @@ func loadContractFile(file string, out map[string]*FuncContract) error {
 		}
 	}
 	return nil
+}
+
+// splitTopLevel splits a comma separated list, flattening macro-introduced outer parentheses.
+func splitTopLevel(s string) []string {
+	var out []string
+	depth, start := 0, 0
+	flush := func(end int) {
+		item := strings.TrimSpace(s[start:end])
+		if item == "" {
+			return
+		}
+		// (a, b, c) from a macro: flatten
+		if strings.HasPrefix(item, "(") && strings.HasSuffix(item, ")") && matchingParen(item) == len(item)-1 && strings.Contains(item, ",") {
+			out = append(out, splitTopLevel(item[1:len(item)-1])...)
+			return
+		}
+		out = append(out, item)
+	}
+	for i, c := range s {
+		switch c {
+		case '(', '[':
+			depth++
+		case ')', ']':
+			depth--
+		case ',':
+			if depth == 0 {
+				flush(i)
+				start = i + 1
+			}
+		}
+	}
+	flush(len(s))
+	return out
+}
+
+func matchingParen(s string) int {
+	depth := 0
+	for i, c := range s {
+		switch c {
+		case '(':
+			depth++
+		case ')':
+			depth--
+			if depth == 0 {
+				return i
+			}
+		}
+	}
+	return -1
 }
